@@ -10,7 +10,7 @@ from ..effects import Effects, roots, callee
 from ..flow import Flow
 from .. import preds
 from ..preds import Scope, canon, refine, absorb, cmp_atom, fmt
-from .common import (facts_for, classes, full_classes, strip_copy, write_rhs, is_this_mem, lit_value, inline_bool_predicates,
+from .common import (facts_for, classes, full_classes, strip_copy, write_rhs, is_this_mem, lit_value, inline_bool_predicates, inline_value_lambdas,
                      optimizer_classes, optimizer_spline_order)
 
 BC_FIELDS = [("start_velocity", 3), ("end_velocity", 3), ("start_acceleration", 5), ("end_acceleration", 5),
@@ -191,8 +191,9 @@ def run(chk):
         if len(errs) != 1:
             raise Broken("error list local not found in checkValidity")
         errors_id = errs[0]["id"]
-        sc = Scope(cv)
-        guards = collect_guards(F, cv, errors_id, sc)
+        cvi = inline_value_lambdas(inline_bool_predicates(F, cv))     # predicates kept in helpers / local lambdas are read as their tests
+        sc = Scope(cvi)
+        guards = collect_guards(F, cvi, errors_id, sc)
         # group by loop context, OR the guards of one context together, absorb
         statics = {s["name"]: s.get("v") for s in rec["statics"]}
         mins = [v for k, v in statics.items() if "MIN" in k.upper() and v is not None]
